@@ -1,5 +1,6 @@
 import Simaple.Model.JsonUtil
 import Simaple.Model.Dispatch
+import Simaple.Model.Strategy
 /-! driver entry points for the L3 dispatch model -/
 namespace Simaple.DrvDispatch
 open Lean Simaple.J Simaple.Dispatch
@@ -40,6 +41,15 @@ def dispatch (fn : String) (j : Json) : Option (Except String Json) :=
       let c : Comp Unit := ⟨← str (← field j "comp"), defaults.map (fun d => (d, ())), binds⟩
       pure (Json.mkObj [("names", .arr (c.boundNames.map (fun p => Json.arr #[.str p.1, .str p.2])).toArray),
                         ("addrs", .arr (c.boundAddrs.map Json.str).toArray)])
+  | "cast_by_priority" => some do
+      let order ← strList (← field j "order")
+      let vs ← (← list (← field j "validity")).mapM (fun v => do
+        pure (⟨← str (← field v "name"), ← (← field v "valid").getBool?⟩ : Simaple.Strategy.V))
+      let rs ← (← list (← field j "running")).mapM (fun r => do
+        match ← list r with
+        | [n, t] => pure (← str n, ← int t)
+        | _ => throw "running pair")
+      pure (match Simaple.Strategy.castByPriority order vs rs with | some n => Json.str n | none => Json.null)
   | _ => none
 
 end Simaple.DrvDispatch
